@@ -1069,11 +1069,18 @@ where
 #[cfg(feature = "parallel")]
 impl<T: TraceStorage> ChainProcess<T> {
     fn finalize_many(trace: T, chains: Vec<Self>) -> Result<(Option<anyhow::Error>, T::Finalized)> {
+        #[cfg(nuts_rs_verif)]
+        {
+            crate::verif::sched("ctl_finalize", -1);
+            crate::verif::emit("sampler", || crate::verif::json!({"ev": "ctl_finalize"}));
+        }
         let finalized_chain_traces = chains
             .into_iter()
             .filter_map(|chain| chain.trace.lock().expect("Poisoned lock").take())
             .map(|chain| chain.finalize())
             .collect_vec();
+        #[cfg(nuts_rs_verif)]
+        crate::verif::emit("sampler", || crate::verif::json!({"ev": "ctl_finalized"}));
         trace.finalize(finalized_chain_traces)
     }
 
@@ -1116,6 +1123,15 @@ impl<T: TraceStorage> ChainProcess<T> {
         scope.spawn_fifo(move |_| {
             let chain_trace = trace_inner;
             let progress = progress_inner;
+            #[cfg(nuts_rs_verif)]
+            let verif_id = chain_id as i64;
+            #[cfg(nuts_rs_verif)]
+            {
+                crate::verif::emit("sampler", || {
+                    crate::verif::json!({"ev": "ch_start", "i": verif_id})
+                });
+                crate::verif::sched("ch_start", verif_id);
+            }
 
             let mut sample = move || {
                 let logp = model
@@ -1148,37 +1164,93 @@ impl<T: TraceStorage> ChainProcess<T> {
 
                 let draws = settings.hint_num_tune() + settings.hint_num_draws();
 
+                #[cfg(nuts_rs_verif)]
+                crate::verif::sched("ch_poll", verif_id);
                 let mut msg = stop_marker_rx.try_recv();
                 let mut draw = 0;
+                #[cfg(nuts_rs_verif)]
+                let verif_msg = |m: &std::result::Result<ChainCommand, TryRecvError>| match m {
+                    Ok(ChainCommand::Pause) => "Pause",
+                    Ok(ChainCommand::Resume) => "Resume",
+                    Err(TryRecvError::Empty) => "empty",
+                    Err(TryRecvError::Disconnected) => "disconnected",
+                };
+                #[cfg(nuts_rs_verif)]
+                crate::verif::emit("sampler", || {
+                    crate::verif::json!({"ev": "ch_msg", "i": verif_id, "how": "init",
+                        "msg": verif_msg(&msg)})
+                });
                 loop {
                     match msg {
                         // The remote end is dead
                         Err(TryRecvError::Disconnected) => {
+                            #[cfg(nuts_rs_verif)]
+                            crate::verif::emit("sampler", || {
+                                crate::verif::json!({"ev": "ch_check", "i": verif_id, "to": "finishing"})
+                            });
                             break;
                         }
                         Err(TryRecvError::Empty) => {}
                         Ok(ChainCommand::Pause) => {
+                            #[cfg(nuts_rs_verif)]
+                            {
+                                crate::verif::emit("sampler", || {
+                                    crate::verif::json!({"ev": "ch_check", "i": verif_id, "to": "parked"})
+                                });
+                                crate::verif::sched("ch_park", verif_id);
+                            }
                             msg = stop_marker_rx.recv().map_err(|e| e.into());
+                            #[cfg(nuts_rs_verif)]
+                            crate::verif::emit("sampler", || {
+                                crate::verif::json!({"ev": "ch_msg", "i": verif_id, "how": "block",
+                                    "msg": verif_msg(&msg)})
+                            });
                             continue;
                         }
                         Ok(ChainCommand::Resume) => {}
+                    }
+                    #[cfg(nuts_rs_verif)]
+                    {
+                        crate::verif::emit("sampler", || {
+                            crate::verif::json!({"ev": "ch_check", "i": verif_id, "to": "drawing"})
+                        });
+                        crate::verif::sched("ch_draw", verif_id);
                     }
 
                     let now = Instant::now();
                     let (_point, mut draw_data, mut stats, info) = sampler.expanded_draw().unwrap();
 
+                    #[cfg(nuts_rs_verif)]
+                    {
+                        crate::verif::emit("sampler", || {
+                            crate::verif::json!({"ev": "ch_drawn", "i": verif_id, "k": draw,
+                                "hash": crate::verif::hash_f64s(&_point)})
+                        });
+                        crate::verif::sched("ch_lock", verif_id);
+                    }
                     let mut guard = chain_trace
                         .lock()
                         .expect("Could not unlock trace lock. Poisoned mutex");
 
                     let Some(trace_val) = guard.as_mut() else {
                         // The trace was removed by controller thread. We can stop sampling
+                        #[cfg(nuts_rs_verif)]
+                        crate::verif::emit("sampler", || {
+                            crate::verif::json!({"ev": "ch_locked", "i": verif_id, "slot": "taken"})
+                        });
                         break;
                     };
                     progress
                         .lock()
                         .expect("Poisoned mutex")
                         .update(&info, now.elapsed());
+                    #[cfg(nuts_rs_verif)]
+                    {
+                        crate::verif::emit("sampler", || {
+                            crate::verif::json!({"ev": "ch_locked", "i": verif_id, "slot": "present"})
+                        });
+                        crate::verif::sched("ch_record", verif_id);
+                    }
 
                     let math = sampler.math();
                     let dims = StatsDims::from(math.deref());
@@ -1188,18 +1260,39 @@ impl<T: TraceStorage> ChainProcess<T> {
                         draw_data.get_all(math.deref()),
                         &info,
                     )?;
+                    #[cfg(nuts_rs_verif)]
+                    crate::verif::emit("sampler", || {
+                        crate::verif::json!({"ev": "ch_recorded", "i": verif_id, "k": draw,
+                            "diverging": info.diverging, "tuning": info.tuning,
+                            "num_steps": info.num_steps})
+                    });
 
                     draw += 1;
                     if draw == draws {
                         break;
                     }
+                    #[cfg(nuts_rs_verif)]
+                    crate::verif::sched("ch_poll", verif_id);
 
                     msg = stop_marker_rx.try_recv();
+                    #[cfg(nuts_rs_verif)]
+                    crate::verif::emit("sampler", || {
+                        crate::verif::json!({"ev": "ch_msg", "i": verif_id, "how": "try",
+                            "msg": verif_msg(&msg)})
+                    });
                 }
                 Ok(())
             };
 
             let result = sample();
+            #[cfg(nuts_rs_verif)]
+            {
+                crate::verif::sched("ch_finish", verif_id);
+                crate::verif::emit("sampler", || {
+                    crate::verif::json!({"ev": "ch_result", "i": verif_id, "ok": result.is_ok(),
+                        "msg": result.as_ref().err().map(|e| format!("{e:#}"))})
+                });
+            }
 
             // We intentionally ignore errors here, because this means some other
             // chain already failed, and should have reported the error.
@@ -1362,14 +1455,40 @@ impl<F: Send + 'static> Sampler<F> {
                             progress_rate
                         });
 
+                        #[cfg(nuts_rs_verif)]
+                        crate::verif::sched("ctl_loop", -1);
                         // TODO return when all chains are done
                         match commands_rx.recv_timeout(timeout) {
                             Ok(SamplerCommand::Pause) => {
+                                #[cfg(nuts_rs_verif)]
+                                crate::verif::emit("sampler", || {
+                                    crate::verif::json!({"ev": "ctl_recv", "cmd": "pause"})
+                                });
+                                #[cfg(nuts_rs_verif)]
+                                let mut verif_k = 0i64;
                                 for chain in chains.iter() {
+                                    #[cfg(nuts_rs_verif)]
+                                    {
+                                        crate::verif::sched("ctl_fwd", -1);
+                                        crate::verif::emit("sampler", || {
+                                            crate::verif::json!({"ev": "ctl_fwd", "i": verif_k, "msg": "Pause"})
+                                        });
+                                    }
                                     // This failes if the thread is done.
                                     // We just want to ignore those threads.
                                     let _ = chain.pause();
+                                    #[cfg(nuts_rs_verif)]
+                                    {
+                                        crate::verif::emit("sampler", || {
+                                            crate::verif::json!({"ev": "ctl_fwd_done", "i": verif_k})
+                                        });
+                                        verif_k += 1;
+                                    }
                                 }
+                                #[cfg(nuts_rs_verif)]
+                                crate::verif::emit("sampler", || {
+                                    crate::verif::json!({"ev": "ctl_resp", "cmd": "pause"})
+                                });
                                 if !is_paused {
                                     pause_start = Instant::now();
                                 }
@@ -1381,11 +1500,35 @@ impl<F: Send + 'static> Sampler<F> {
                                 })?;
                             }
                             Ok(SamplerCommand::Continue) => {
+                                #[cfg(nuts_rs_verif)]
+                                crate::verif::emit("sampler", || {
+                                    crate::verif::json!({"ev": "ctl_recv", "cmd": "resume"})
+                                });
+                                #[cfg(nuts_rs_verif)]
+                                let mut verif_k = 0i64;
                                 for chain in chains.iter() {
+                                    #[cfg(nuts_rs_verif)]
+                                    {
+                                        crate::verif::sched("ctl_fwd", -1);
+                                        crate::verif::emit("sampler", || {
+                                            crate::verif::json!({"ev": "ctl_fwd", "i": verif_k, "msg": "Resume"})
+                                        });
+                                    }
                                     // This failes if the thread is done.
                                     // We just want to ignore those threads.
                                     let _ = chain.resume();
+                                    #[cfg(nuts_rs_verif)]
+                                    {
+                                        crate::verif::emit("sampler", || {
+                                            crate::verif::json!({"ev": "ctl_fwd_done", "i": verif_k})
+                                        });
+                                        verif_k += 1;
+                                    }
                                 }
+                                #[cfg(nuts_rs_verif)]
+                                crate::verif::emit("sampler", || {
+                                    crate::verif::json!({"ev": "ctl_resp", "cmd": "resume"})
+                                });
                                 pause_time += pause_start.elapsed();
                                 is_paused = false;
                                 responses_tx.send(SamplerResponse::Ok()).map_err(|e| {
@@ -1395,8 +1538,19 @@ impl<F: Send + 'static> Sampler<F> {
                                 })?;
                             }
                             Ok(SamplerCommand::Progress) => {
+                                #[cfg(nuts_rs_verif)]
+                                crate::verif::emit("sampler", || {
+                                    crate::verif::json!({"ev": "ctl_recv", "cmd": "progress"})
+                                });
                                 let progress =
                                     chains.iter().map(|chain| chain.progress()).collect_vec();
+                                #[cfg(nuts_rs_verif)]
+                                crate::verif::emit("sampler", || {
+                                    crate::verif::json!({"ev": "ctl_resp", "cmd": "progress",
+                                        "finished": progress.iter().map(|p| p.finished_draws).collect::<Vec<_>>(),
+                                        "divergences": progress.iter().map(|p| p.divergences).collect::<Vec<_>>(),
+                                        "steps": progress.iter().map(|p| p.total_num_steps).collect::<Vec<_>>()})
+                                });
                                 responses_tx.send(SamplerResponse::Progress(progress.into())).map_err(|e| {
                                     anyhow::anyhow!(
                                         "Could not send progress response to controller thread: {e}"
@@ -1404,6 +1558,10 @@ impl<F: Send + 'static> Sampler<F> {
                                 })?;
                             }
                             Ok(SamplerCommand::Inspect) => {
+                                #[cfg(nuts_rs_verif)]
+                                crate::verif::emit("sampler", || {
+                                    crate::verif::json!({"ev": "ctl_recv", "cmd": "inspect"})
+                                });
                                 let traces = chains
                                     .iter()
                                     .filter_map(|chain| {
@@ -1416,6 +1574,10 @@ impl<F: Send + 'static> Sampler<F> {
                                     })
                                     .collect_vec();
                                 let finalized_trace = trace.inspect(traces)?;
+                                #[cfg(nuts_rs_verif)]
+                                crate::verif::emit("sampler", || {
+                                    crate::verif::json!({"ev": "ctl_resp", "cmd": "inspect"})
+                                });
                                 responses_tx.send(SamplerResponse::Inspect(finalized_trace)).map_err(|e| {
                                     anyhow::anyhow!(
                                         "Could not send inspect response to controller thread: {e}"
@@ -1423,9 +1585,17 @@ impl<F: Send + 'static> Sampler<F> {
                                 })?;
                             }
                             Ok(SamplerCommand::Flush) => {
+                                #[cfg(nuts_rs_verif)]
+                                crate::verif::emit("sampler", || {
+                                    crate::verif::json!({"ev": "ctl_recv", "cmd": "flush"})
+                                });
                                 for chain in chains.iter() {
                                     chain.flush()?;
                                 }
+                                #[cfg(nuts_rs_verif)]
+                                crate::verif::emit("sampler", || {
+                                    crate::verif::json!({"ev": "ctl_resp", "cmd": "flush"})
+                                });
                                 responses_tx.send(SamplerResponse::Ok()).map_err(|e| {
                                     anyhow::anyhow!(
                                         "Could not send flush response to controller thread: {e}"
@@ -1434,6 +1604,10 @@ impl<F: Send + 'static> Sampler<F> {
                             }
                             Err(RecvTimeoutError::Timeout) => {}
                             Err(RecvTimeoutError::Disconnected) => {
+                                #[cfg(nuts_rs_verif)]
+                                crate::verif::emit("sampler", || {
+                                    crate::verif::json!({"ev": "ctl_recv", "cmd": "disconnected"})
+                                });
                                 if let Some(ProgressCallback { callback, .. }) = &mut callback {
                                     let progress =
                                         chains.iter().map(|chain| chain.progress()).collect_vec();
